@@ -20,7 +20,7 @@ import ast
 
 from ..core import AnalysisError, norm, short
 from ..setalg import Universe, SetInterp, Opaque, Unmodelled
-from ..layers import layers_of_var
+from ..layers import layers_of_var, layers_of_value
 from ..astutil import argn, assigned_value
 from . import chain
 from .common import (cfg_of, fkey, conds, has_cond, cond_texts, stmts_of, walk_body, call_tail, call_name, returns_of,
@@ -267,7 +267,7 @@ def check_reserved_tables(rep):
         injs = [c for c in walk_body(f.node) if isinstance(c, ast.Call) and call_name(c) == 'inject']
         if not injs or len(injs[0].args) < 2:
             raise AnalysisError('%s: inject call not found' % q)
-        for l in layers_of_var(f.node, norm(injs[0].args[1])):
+        for l in layers_of_value(f.node, injs[0].args[1]):
             if l.kind == 'literal':
                 for k in l.keys:
                     injected[k] = q
